@@ -50,6 +50,9 @@ impl ValueChain {
     fn push_value_mut(&mut self, value: Value) -> &mut Value {
         // note: There is no need for keeping the old chain.
         // All those references are out of scope when add_mut is called.
+        // Release it through `Drop for ValueChain`, which unlinks node by node:
+        // plain assignment would run the recursive drop glue, one stack frame per node.
+        drop(core::mem::take(self));
         self.root = Node::new(value).into();
 
         &mut self.root.get_mut().unwrap().value
